@@ -3,7 +3,7 @@
    statement is proved by evaluating a boolean check over the enumeration
    [all_cfgs] inside the kernel (vm_compute) and lifting it with
    [forallb_forall] and the completeness of the enumeration. *)
-From Coq Require Import List Bool Arith Lia.
+From Coq Require Import List Bool Arith NArith Lia.
 From SWH.model Require Import Cli.
 Import ListNotations.
 
@@ -31,27 +31,39 @@ Proof.
   apply in_map. apply all_bools_complete.
 Qed.
 
-Definition cfg_code (c : cfg) : nat :=
-  let k := match arg c with AFile => 0 | ADir => 1 | ALinkFile => 2 | ALinkDir => 3 | AStdin => 4 | AUrl => 5 | AGitRepo => 6 end in
-  let t := match ty c with TAuto => 0 | TContent => 1 | TDirectory => 2 | TOrigin => 3 | TSnapshot => 4 end in
-  let d := if deref c then 0 else 1 in
-  let f := if fname c then 0 else 1 in
-  let r := if recur c then 0 else 1 in
-  let v := match ver c with VNone => 0 | VMatch => 1 | VNonMatch => 2 end in
-  let x := if excl c then 0 else 1 in
-  (((((k * 5 + t) * 2 + d) * 2 + f) * 2 + r) * 3 + v) * 2 + x.
+(* an injection of configurations into N: the index in the enumeration *)
+Definition cfg_code (c : cfg) : N :=
+  (let k : N := match arg c with AFile => 0 | ADir => 1 | ALinkFile => 2 | ALinkDir => 3 | AStdin => 4 | AUrl => 5 | AGitRepo => 6 end in
+  let t : N := match ty c with TAuto => 0 | TContent => 1 | TDirectory => 2 | TOrigin => 3 | TSnapshot => 4 end in
+  let d : N := if deref c then 0 else 1 in
+  let f : N := if fname c then 0 else 1 in
+  let r : N := if recur c then 0 else 1 in
+  let v : N := match ver c with VNone => 0 | VMatch => 1 | VNonMatch => 2 end in
+  let x : N := if excl c then 0 else 1 in
+  (((((k * 5 + t) * 2 + d) * 2 + f) * 2 + r) * 3 + v) * 2 + x)%N.
+
+Fixpoint nodupb (l : list N) : bool :=
+  match l with
+  | [] => true
+  | x :: l' => negb (existsb (N.eqb x) l') && nodupb l'
+  end.
+
+Lemma nodupb_sound : forall l, nodupb l = true -> NoDup l.
+Proof.
+  induction l as [|x l IH]; cbn [nodupb]; intros H.
+  - constructor.
+  - apply andb_prop in H as [Hx Hl]. constructor.
+    + intros Hin. rewrite negb_true_iff in Hx.
+      assert (Hex : existsb (N.eqb x) l = true).
+      { apply existsb_exists. exists x. split; [exact Hin|apply N.eqb_refl]. }
+      congruence.
+    + apply IH. exact Hl.
+Qed.
 
 Theorem all_cfgs_count : length all_cfgs = 1680 /\ NoDup all_cfgs.
 Proof.
   split; [vm_compute; reflexivity|].
-  (* NoDup through an injection into nat: the index of a configuration *)
-  assert (Hseq : map cfg_code all_cfgs = seq 0 1680) by (vm_compute; reflexivity).
-  assert (Hnd : NoDup (map cfg_code all_cfgs)) by (rewrite Hseq; apply seq_NoDup).
-  revert Hnd. generalize all_cfgs. intros l. induction l as [|a l IH]; intros Hnd.
-  - constructor.
-  - cbn [map] in Hnd. inversion Hnd as [|? ? Hnotin Hnd']; subst. constructor.
-    + intros Hin. apply Hnotin. apply in_map. exact Hin.
-    + apply IH. exact Hnd'.
+  apply (NoDup_map_inv cfg_code). apply nodupb_sound. vm_compute. reflexivity.
 Qed.
 
 (* lifting a boolean sweep to a universally quantified statement *)
